@@ -645,25 +645,31 @@ KERNELS = [
            outside=["which exceptions real malformed bytes provoke inside third-party parsers (over-approximated by the "
                     "injected classes); BaseException subclasses"],
            timeout={"quick": 280, "thorough": 1500}),
-    Kernel("K1g", "every extractor on empty / magic-only / truncated / foreign-format input", k1_empty_and_garbage,
+    Kernel("K1g", "every extractor on empty / magic-only / truncated / tail-damaged / foreign-format input: terminates, only "
+                  "library errors, nothing written to the process's standard output", k1_empty_and_garbage,
            targets=_targets_k1, strength="structure", core=False,
            choices=["extractor", "input: 11 short byte strings, or another format's fixture whole / half / 64 bytes"],
            timeout={"quick": 280, "thorough": 1500}),
-    Kernel("K2", "input-walking loops terminate on every bounded input (RTF strippers, PPT record walk, XLS FILEPASS walk)",
+    Kernel("K2", "input-walking loops terminate on every bounded input (RTF strippers, PPT record walk, XLS FILEPASS walk, DOC "
+                 "PNG chunk walk)",
            k2_termination,
            targets=lambda: [
                __import__("sharepoint2text.parsing.extractors.ms_legacy.rtf_extractor", fromlist=["x"])._RtfParser._strip_rtf_full_with_pages,
                __import__("sharepoint2text.parsing.extractors.ms_legacy.rtf_extractor", fromlist=["x"])._RtfParser._strip_rtf_simple,
                __import__("sharepoint2text.parsing.extractors.ms_legacy.rtf_extractor", fromlist=["x"])._RtfParser._remove_ignorable_groups,
                __import__("sharepoint2text.parsing.extractors.ms_legacy.ppt_extractor", fromlist=["x"])._iter_records,
-               __import__("sharepoint2text.parsing.extractors.util.encryption", fromlist=["x"]).is_xls_encrypted],
+               __import__("sharepoint2text.parsing.extractors.util.encryption", fromlist=["x"]).is_xls_encrypted,
+               __import__("sharepoint2text.parsing.extractors.ms_legacy.doc_extractor",
+                          fromlist=["x"])._DocReader._extract_png_images_from_bytes],
            parts=_k2_parts, perturb=[("expect_timeout", {"fn": "rtf_ignorable", "len": 2})], max_depth=400,
            symbolic=["every character of the RTF text (from the RTF lexeme alphabet) / every byte of the record stream"],
            assumptions=["more than 400 solver decisions or 40000 executed lines on one path of an input of <= 6 characters / 32 bytes stands for non-termination; a hit is replayed on the real function in a child process under a 5 s hard wall-clock limit"],
            outside=["inputs longer than the bound (RTF 5/6 characters, record streams 20 / 28-32 bytes)",
                     "time spent inside a single C-level call (super-linear regular expressions on whole inputs "
                     "terminate and execute no repository lines: seed C01-c is not detected)",
-                    "loops driven by third-party iterators (pypdf, SharePoint paging)"],
+                    "loops driven by third-party iterators (pypdf, SharePoint paging)",
+                    "the other byte-walking loops of the repository (DOC DIB scan, XLS BLIP scan, PPT container parse, 7z "
+                    "header parse; the JPEG segment walks are explored by C14/K1)"],
            timeout={"quick": 280, "thorough": 2400}),
     Kernel("K3", "CLI: result and exit 0, or empty stdout + one stderr line + exit 1", k3_cli,
            targets=lambda: [__import__("sharepoint2text.cli", fromlist=["x"]).main], strength="structure",
@@ -677,7 +683,9 @@ META = {
     "level_text": "Fault position and exception class are symbolic over every collaborator call of all 21 registered "
                   "extractors (exhaustive fault enumeration through the real wrappers); the input-walking loops are executed "
                   "on fully symbolic bounded inputs and every feasible path must terminate; the CLI contract is explored "
-                  "over existence/size/result-count/failure-stage/flag combinations.",
+                  "over existence/size/result-count/failure-stage/flag combinations, including a failure while the output "
+                  "is being written; every extractor is run on damaged fixtures in a child process whose standard output "
+                  "is captured at file-descriptor level.",
     "level_note": "Mostly fault / structure exploration: the solver enumerates the bounded schedule space, each path is a "
                   "native run of the real code. K2 has symbolic data reaching the loops' own branches. Outside: what real "
                   "malformed bytes do inside third-party parsers.",
